@@ -12,9 +12,12 @@ def make_mixed(ctx, count, length):
     scns = []
     for i in range(count):
         rng = G.rng_for(ctx.seed, "C19m", i)
-        cfg = G.rand_cfg(rng, mtu=rng.choice([576, 1500, 9216, rng.randint(576, 9216)]))
+        cfg = G.rand_cfg(rng, mtu=rng.choice([576, 1500, 9216, rng.randint(576, 9216), rng.choice([68, 72, 100, 128, 200, 300])]))
         net = G.Net(rng, cfg["mac"])
         glob = G.rand_global(rng, icon_size=rng.choice([0, 10, 2000, 30000, 32768, 32769, 40000, 70000]))
+        if rng.random() < 0.3:
+            # names longer than one response at this MTU: their transfers take several requests (and are often left unfinished)
+            glob["fname"] = W.fill_stream(rng.choice([cfg["mtu"], 3 * cfg["mtu"], 5000]), rng.randint(1, 10 ** 6))
         frames = []
         while len(frames) < length:
             chunk = G.session_history(rng, net, cfg["mtu"], min(400, length - len(frames)), p_mut=0.15, p_noise=0.03,
